@@ -139,7 +139,14 @@ func BuildEnvironment(state *BuildState, target *BuildTarget, tmpDir string) Bui
 // Sadly this can't be done as part of TargetEnv() target env as this requires the other
 // env vars are set so they can be substituted.
 func withUserProvidedEnv(target *BuildTarget, env BuildEnv) BuildEnv {
-	for k, v := range target.Env {
+	// Iterate in a fixed order: values may refer to variables set by earlier entries.
+	keys := make([]string, 0, len(target.Env))
+	for k := range target.Env {
+		keys = append(keys, k)
+	}
+	sort.Strings(keys)
+	for _, k := range keys {
+		v := target.Env[k]
 		if strings.Contains(v, "$") {
 			v = os.Expand(v, func(k string) string {
 				if v, present := env[k]; present {
